@@ -3,6 +3,8 @@ import SC.Model.Std
 import SC.Gen.Consts
 import SC.Gen.AsmFacts
 import SC.Model.AsmLink
+import SC.Model.GoSsa
+import SC.Gen.GoSsa
 /-!
 Line-protocol driver: one op per line on stdin, one answer per line on stdout.
 
@@ -258,6 +260,50 @@ def runStep (jump : Bool) (args : List String) : String :=
         rs ++ xs ++ ys ++ " " ++ fmtBool s'.zf ++ fmtBool s'.cf ++ fmtBool s'.lt
   | _ => "bad-op"
 
+/-- column G: the regenerated go/ssa form of the repository's own Go function, run by the interpreter `GoSsa.call`
+    (only for the configuration the programs were type-checked for: `NativeIndex`, amd64 `Cutover`) -/
+def fmtG (a1 : Utf8.Bytes) : GoSsa.Val → String
+  | .int v => toString v
+  | .bool b => fmtBool b
+  | .str b root off => if b.length = 0 then "(e)" else if root = 0 ∧ b = (a1.drop off).take b.length then s!"({off},{b.length})" else "foreign-slice"
+  | .nil => "(e)"
+  | .arr vs => ",".intercalate (vs.map toString)
+  | .cptr vs => ",".intercalate (vs.map toString)
+  | _ => "?"
+
+def gFuel : Nat := 20000000
+
+def runG (fn : String) (cfgs : String) (args : List String) : String :=
+  let l := cfgs.toList
+  if l.getD 1 'n' != 'n' || l.getD 2 ' ' == 'a' then "-" else
+  let byt := l.head? == some 'b'
+  let prog := if byt then Gen.Src.byt else Gen.Src.str
+  let a1 := parseHex (args.getD 0 "-")
+  let s2 := args.getD 1 "-"
+  let v1 : GoSsa.Val := .str a1 0 0
+  let vb2 : GoSsa.Val := .str (parseHex s2) 1 0
+  let vi2 : GoSsa.Val := .int (parseInt s2)
+  let strstr := ["Compare", "EqualFold", "HasPrefix", "HasSuffix", "TrimPrefix", "TrimSuffix", "CutPrefix", "CutSuffix", "Index",
+    "LastIndex", "Contains", "Count", "Cut", "IndexAny", "LastIndexAny", "ContainsAny", "hasPrefixUnicode", "hasSuffixUnicode",
+    "bruteForceIndexUnicode", "indexRabinKarpUnicode", "indexRabinKarpRevUnicode", "makeASCIISet"]
+  let strint := ["IndexRune", "ContainsRune", "IndexByte", "LastIndexByte", "IndexByteASCII", "indexRuneCase", "indexRune", "lastIndexRune",
+    "indexByte", "countRune"]
+  let str1 := ["IndexNonASCII", "ContainsNonASCII", "nonLetterASCII", "containsKelvin", "hashStrUnicode", "hashStrRevUnicode"]
+  let argv? : Option (List GoSsa.Val) :=
+    if strstr.contains fn then some [v1, vb2]
+    else if strint.contains fn then some [v1, vi2]
+    else if str1.contains fn then some [v1]
+    else if fn == "indexRune2" then some [v1, vi2, .int (parseInt (args.getD 2 "0"))]
+    else none
+  match argv? with
+  | none => "-"
+  | some argv =>
+    match GoSsa.call prog byt gFuel fn argv with
+    | .ok vs _ => ",".intercalate (vs.map (fmtG a1))
+    | .panic => "PANIC"
+    | .nofuel => "HANG"
+    | .stuck m => "STUCK:" ++ m.replace " " "_"
+
 partial def loop (h : IO.FS.Stream) (out : IO.FS.Stream) : IO Unit := do
   let line ← h.getLine
   if line.isEmpty then
@@ -271,8 +317,8 @@ partial def loop (h : IO.FS.Stream) (out : IO.FS.Stream) : IO Unit := do
   | "jump" :: args => out.putStrLn (runStep true args)
   | fn :: cfg :: args =>
     let (a, s) := run fn (mkCfg cfg) args
-    out.putStrLn (a ++ "\t" ++ s ++ "\t" ++ runM fn (mkCfg cfg) args)
-  | _ => out.putStrLn "bad-op\tbad-op\t-"
+    out.putStrLn (a ++ "\t" ++ s ++ "\t" ++ runM fn (mkCfg cfg) args ++ "\t" ++ runG fn cfg args)
+  | _ => out.putStrLn "bad-op\tbad-op\t-\t-"
   loop h out
 
 def main : IO Unit := do
